@@ -128,3 +128,15 @@ package vgirpc
 //@   at call "local:hookCleanup" assert [cleanuponce] started && !cleaned
 //@   at call "local:hookCleanup" mark cleaned
 //@   ensures [local_cleanedifstarted] started ==> cleaned
+
+// A producer turn that cannot hand out its continuation token (sealing or writing it failed)
+// tells the hook an error — and tells the client too: an exception batch is written into the
+// stream before it is closed (repaired defect: the client got 200 with what had been produced
+// so far, no token and no error, i.e. a silently truncated stream).
+//
+//@ func (*HttpServer).handleProducerContinuation
+//@   property C37
+//@   pathflag tokenErrReported
+//@   at call writeErrorBatch assert [tokenfailure] arg2 == err && err != nil && arg0 == writer && arg1 == schema
+//@   at call writeErrorBatch mark tokenErrReported
+//@   at call (*ipc.Writer).Close assert [reportedtoclient] err != nil && !produceFailed ==> tokenErrReported
